@@ -314,4 +314,7 @@ def check(report: Report, repo: Repo) -> None:
             report.add("R6-display", cons, shown == want, f"ScalePair(forward={a_}, backward={b_}) prints a number for every recorded scale (0 included) and 'n/a' only for None", txt, "number iff not None")
     except Unsupported as ex:
         report.add("R6-display", cons, None, f"outside fragment: {ex}")
+    from .c17 import check_root_entry
+
+    check_root_entry(report, repo, "R4-shim")  # the transform is only applied at all if TorchDynamo traces the root
     report.floor("obligations", len(report.obls), 25)
